@@ -74,6 +74,10 @@ func mulGE(a, ka, b, c, kbc uint64) bool { panic("ghost builtin") }
 // refOf is the identity of the object a pointer refers to (0 for nil).
 func refOf[T any](p *T) int { panic("ghost builtin") }
 
+// allocated reports whether the object x refers to existed when the function under
+// verification was entered (false for objects it allocated itself).
+func allocated[T any](x T) bool { panic("ghost builtin") }
+
 // nonNil reports whether a pointer, slice, or interface payload reference is non-nil.
 func nonNil[T any](x T) bool { panic("ghost builtin") }
 
@@ -333,3 +337,48 @@ func specGateOK(e int, status uint8, mbr, gbr uint64) bool {
 //@   ensures C09.bess.dl.cbs: qer.qosLevel <= 1 ==> gfield("qer.cbs", gentry("qer", old[int](glen("qer"))+1)) >= uint64(specQosCfg(b, qer.qfi).cbs) && (qer.dlGbr < 1<<40 ==> mulGE(gfield("qer.cbs", gentry("qer", old[int](glen("qer"))+1)), 1000, qer.dlGbr, uint64(specQosCfg(b, qer.qfi).burstDurationMs), 125))
 //@   ensures C09.bess.dl.pbs: qer.qosLevel <= 1 ==> gfield("qer.pbs", gentry("qer", old[int](glen("qer"))+1)) >= uint64(specQosCfg(b, qer.qfi).pbs) && (qer.dlMbr < 1<<40 ==> mulGE(gfield("qer.pbs", gentry("qer", old[int](glen("qer"))+1)), 1000, qer.dlMbr, uint64(specQosCfg(b, qer.qfi).burstDurationMs), 125))
 //@   ensures C09.bess.dl.ebs: qer.qosLevel <= 1 ==> gfield("qer.ebs", gentry("qer", old[int](glen("qer"))+1)) >= uint64(specQosCfg(b, qer.qfi).ebs) && (qer.dlMbr < 1<<40 ==> mulGE(gfield("qer.ebs", gentry("qer", old[int](glen("qer"))+1)), 1000, qer.dlMbr, uint64(specQosCfg(b, qer.qfi).burstDurationMs), 125))
+
+// ---------------------------------------------------------------------------
+// C09: session-wide QER selection (session_qer.go)
+// ---------------------------------------------------------------------------
+
+func specContains(a []uint32, v uint32) bool {
+	return exists(func(k int) bool { return lo(a) <= k && k < hi(a) && at(a, k) == v })
+}
+
+//@ func contains(a []uint32, val uint32) (r bool)
+//@   ensures C09.contains: r <==> specContains(a, val)
+//@   loop 1 invariant 0 <= i && i <= len(a)
+//@   loop 1 invariant !(exists k int :: lo(a) <= k && k < lo(a)+i && at(a, k) == val)
+
+//@ func findItemIndex(slice []uint32, val uint32) (r int)
+//@   ensures C09.find.range: 0 <= r && r <= len(slice)
+//@   ensures C09.find.hit: r < len(slice) ==> at(slice, lo(slice)+r) == val
+//@   ensures C09.find.miss: r == len(slice) ==> !specContains(slice, val)
+//@   loop 1 invariant 0 <= i && i <= len(slice)
+//@   loop 1 invariant !(exists k int :: lo(slice) <= k && k < lo(slice)+i && at(slice, k) == val)
+
+//@ func Intersect(a []uint32, b []uint32) (set []uint32)
+//@   freshwrites E:uint32
+//@   ensures C09.intersect.sub: forall x int :: lo(set) <= x && x < hi(set) ==> specContains(a, at(set, x)) && specContains(b, at(set, x))
+//@   ensures C09.intersect.fresh: !allocated(set) && len(set) <= len(a)
+//@   loop 1 invariant 0 <= i && i <= len(a) && !allocated(set) && len(set) <= i
+//@   loop 1 invariant forall x int :: lo(set) <= x && x < hi(set) ==> specContains(a, at(set, x)) && specContains(b, at(set, x))
+
+// specAllPdrsRef: every PDR of the session lists QER id v.
+func specAllPdrsRef(s *PFCPSession, v uint32) bool {
+	return forall(func(j int) bool {
+		return implies(lo(s.pdrs) <= j && j < hi(s.pdrs), specContains(at(s.pdrs, j).qerIDList, v))
+	})
+}
+
+//@ func (s *PFCPSession) MarkSessionQer(qers []qer)
+//@   requires s != nil
+//@   ensures C09.mark.sound: forall k int :: lo(qers) <= k && k < hi(qers) && at(qers, k).qosLevel == SessionQos && old[QosLevel](at(qers, k).qosLevel) != SessionQos ==> old[bool](specAllPdrsRef(s, at(qers, k).qerID))
+//@   ensures C09.mark.atMostOne: forall k1 int, k2 int :: lo(qers) <= k1 && k1 < k2 && k2 < hi(qers) ==> at(qers, k1).qosLevel == old[QosLevel](at(qers, k1).qosLevel) || at(qers, k2).qosLevel == old[QosLevel](at(qers, k2).qosLevel)
+//@   ensures C09.mark.keeps: forall k int :: lo(qers) <= k && k < hi(qers) ==> at(qers, k).qerID == old[uint32](at(qers, k).qerID) && (old[QosLevel](at(qers, k).qosLevel) == SessionQos ==> at(qers, k).qosLevel == SessionQos) && at(qers, k).ulMbr == old[uint64](at(qers, k).ulMbr) && at(qers, k).dlMbr == old[uint64](at(qers, k).dlMbr) && at(qers, k).ulGbr == old[uint64](at(qers, k).ulGbr) && at(qers, k).dlGbr == old[uint64](at(qers, k).dlGbr) && at(qers, k).qfi == old[uint8](at(qers, k).qfi) && at(qers, k).ulStatus == old[uint8](at(qers, k).ulStatus) && at(qers, k).dlStatus == old[uint8](at(qers, k).dlStatus) && at(qers, k).fseID == old[uint64](at(qers, k).fseID)
+//@   loop 1 freshwrites E:uint32
+//@   loop 1 invariant C09.mark.l1.idx: rangeidx+1 <= len(s.pdrs) && !allocated(sessQerIDList)
+//@   loop 1 invariant C09.mark.l1.common: forall x int, j int :: lo(sessQerIDList) <= x && x < hi(sessQerIDList) && lo(s.pdrs) <= j && j < lo(s.pdrs)+rangeidx+1 ==> specContains(at(s.pdrs, j).qerIDList, at(sessQerIDList, x))
+//@   loop 2 invariant C09.mark.l2.idx: rangeidx+1 <= len(qers) && 0 <= sessionIdx
+//@   loop 2 invariant C09.mark.l2.pick: found ==> sessionIdx < len(qers) && specContains(sessQerIDList, at(qers, lo(qers)+sessionIdx).qerID) && sessQerID == at(qers, lo(qers)+sessionIdx).qerID
